@@ -1126,6 +1126,20 @@ func TestVerifC11(t *testing.T) {
 			inputs = append(inputs, vinput{id: fmt.Sprintf("c%d", i), data: d.data})
 		}
 	}
+	// numbers with trailing dots / hyphens and section numbers at line starts inside license text
+	for i, d := range vnamed("License/MIT/a.txt", "License/BSD-3-Clause/a.txt", "License/ISC/license.txt") {
+		ws := strings.SplitAfter(string(d.data), " ")
+		if len(ws) > 30 {
+			ws[10] = "2.0.. " + ws[10]
+			ws[20] = "1.). " + ws[20]
+			ws[25] = ws[25] + "\n3.. "
+		}
+		inputs = append(inputs, vinput{id: fmt.Sprintf("dots%d", i), data: []byte(strings.Join(ws, ""))})
+	}
+	for i, d := range vnamed("Header/Apache-2.0/header.txt", "License/Apache-2.0/pristine.txt", "License/GPL-2.0/a.txt") {
+		t := strings.ReplaceAll(strings.ReplaceAll(string(d.data), "2.0", "2.0.."), "Version 2,", "Version 2..,")
+		inputs = append(inputs, vinput{id: fmt.Sprintf("vdots%d", i), data: []byte(t)})
+	}
 	cnt := 0
 	for _, in := range inputs {
 		base := c.Match(in.data)
